@@ -819,6 +819,22 @@ fn run_party(
     }
 }
 
+/// The final sweep, on one thread: every bundle through the block path with the shared cache,
+/// then through mempool pre-validation, then every bundle through pre-validation once more (a
+/// peer submitting it again) — a verdict must not depend on what the same thread validated
+/// (and possibly rejected) before.
+fn sweep_parties(n: usize) -> Vec<Party> {
+    let mut v = vec![];
+    for i in 0..n {
+        v.push(Party::ParseSpends { bundle: i as u8 });
+        v.push(Party::PreValidate { bundle: i as u8, feed: false });
+    }
+    for i in 0..n {
+        v.push(Party::PreValidate { bundle: i as u8, feed: false });
+    }
+    v
+}
+
 fn party_bundle(p: &Party) -> usize {
     match p {
         Party::ParseSpends { bundle }
@@ -1103,19 +1119,20 @@ impl C05 {
             let n = built.len();
             let body: Box<dyn FnOnce() -> (usize, Vec<PartyResult>) + Send + 'static> = Box::new(move || {
                 let len = pc.len();
-                let rs = (0..n).map(|i| run_party(&Party::ParseSpends { bundle: i as u8 }, &pc, &pb, &pt, &pk, flags)).collect();
+                let rs = sweep_parties(n).iter().map(|p| run_party(p, &pc, &pb, &pt, &pk, flags)).collect();
                 (len, rs)
             });
-            let sweep = sched::run(vec![body], &Strategy::Explicit { decisions: vec![] }, 400 + 40 * n, || None);
+            let sweep = sched::run(vec![body], &Strategy::Explicit { decisions: vec![] }, 400 + 120 * n, || None);
             match sweep.outcome {
                 Outcome::Done(mut r) => match r.remove(0) {
                     Ok((len, rs)) => {
                         if len > capacity {
                             return out(Some(viol("capacity_exceeded:after_threads".into(), step, format!("len {len} > capacity {capacity}"))), &d, None, Some(resolved));
                         }
+                        let sp = sweep_parties(n);
                         for (i, r) in rs.iter().enumerate() {
                             c.inc("sweep.validations");
-                            if let Some((sig, detail)) = judge(&Party::ParseSpends { bundle: i as u8 }, r, &truths, case, "sweep") {
+                            if let Some((sig, detail)) = judge(&sp[i], r, &truths, case, "sweep") {
                                 return out(Some(viol(sig, step, detail)), &d, None, Some(resolved));
                             }
                         }
@@ -1428,6 +1445,21 @@ impl Engine for C05 {
                 (0..n).map(|_| gen_party(rng, nbundles)).collect()
             })
             .collect();
+        // a peer submits a bundle again: one thread in five goes on with one or two more
+        // validations of the bundle it started with, through the mempool or the deferred paths
+        let mut threads = threads;
+        for th in threads.iter_mut() {
+            if !th.is_empty() && rng.chance(1, 5) {
+                let bundle = party_bundle(&th[0]) as u8;
+                for _ in 0..rng.range(1, 2) {
+                    th.push(match rng.below(4) {
+                        0 | 1 => Party::PreValidate { bundle, feed: rng.chance(1, 2) },
+                        2 => Party::DeferredSignature { bundle, legacy: rng.chance(1, 2), via: rng.below(4) as u8 },
+                        _ => Party::ParseSpends { bundle },
+                    });
+                }
+            }
+        }
         let nprefix = match rng.below(3) {
             0 => 0,
             1 => 1,
